@@ -4,13 +4,13 @@
    positioned, class_ok (lexical rules), indents (indentation rule).
    Only statements + `exact` of lemmas proved in Lex/*Proofs*.v, each followed by Print Assumptions.
    Status: full = C13_fuel, C13_one_eof, C13_partition, C13_positions_normal, C13_utf8_gate (+ roundtrip,
-   refusal), C13_kinds (+ readings), C13_indent_normal; the all-modes statements of positions and
+   refusal), C13_kinds (+ readings, maximal munch, keyword table), C13_indent_normal; the all-modes statements of positions and
    indentation are REFUTED in alias mode (line feed inside an alias parameter) and proved there under
    the hypothesis that excludes exactly that case (_partial). *)
 From Coq Require Import List NArith Bool.
 Import ListNotations.
 From DDP Require Import Gen.Tokens Lex.Utf8 Lex.Utf8Proofs Lex.ScanModel Lex.ScanSpec Lex.ScanRun
-  Lex.ScanProofs Lex.ScanKinds Lex.ScanIndent Lex.ScanFacts.
+  Lex.ScanProofs Lex.ScanKinds Lex.ScanIndent Lex.ScanMunch Lex.ScanFacts.
 Open Scope N_scope.
 
 (* 1. never out of fuel: every NextToken consumes at least one code point or returns EOF, so
@@ -104,6 +104,26 @@ Theorem C13_normal_mode_has_no_alias_parameter :
   forall l0 c0 i0 src ts, scan_from Normal l0 c0 i0 src = Some ts -> forall t, In t ts -> ty t <> tt_ALIAS_PARAMETER.
 Proof. exact normal_no_alias_parameter. Qed.
 Print Assumptions C13_normal_mode_has_no_alias_parameter.
+
+(*    words and numbers are maximal: behind an identifier/keyword there is no alphanumeric code point,
+      behind a number no digit *)
+Theorem C13_maximal_munch :
+  forall m l0 c0 i0 src ts, scan_from m l0 c0 i0 src = Some ts ->
+    Forall (fun t => forall c r d,
+              sub src (tstart t) (tend t) = c :: r -> nth_error src (N.to_nat (tend t)) = Some d ->
+              (isAlpha c = true -> isAlphaNumeric d = false) /\ (isDigit c = true -> isDigit d = false)) ts.
+Proof. exact scan_munch. Qed.
+Print Assumptions C13_maximal_munch.
+
+(*    every spelling of the regenerated keyword table (incl. the listed ASCII transliterations) scans to its
+      keyword; so does its capitalised form unless that is a table entry of its own (mal / Mal) — a finite
+      statement about the table, proved by computation over the whole table *)
+Theorem C13_keywords_scan :
+  forall k v, In (k, v) keyword_table ->
+    (exists a e, scan Normal k = Some [a; e] /\ ty a = v /\ lit a = k /\ ty e = tt_EOF) /\
+    (exists a e, scan Normal (capitalise k) = Some [a; e] /\ ty a = capitalised_type k v /\ lit a = capitalise k /\ ty e = tt_EOF).
+Proof. exact keywords_scan. Qed.
+Print Assumptions C13_keywords_scan.
 
 (* 7. indentation rule *)
 Theorem C13_indent_normal :
